@@ -357,6 +357,9 @@ def run_stateful(ns, mon, case):
     # gradient buffers created by the three reset paths keep the parameter's dtype
     for path in ("optimizer", "module", "tensor"):
         lin = nn.Linear(3, 2)
+        if case["seed"] % 2:
+            # the layer was already used at its default precision (gradient buffers exist) before it is switched to the working dtype
+            lin(T(rng.standard_normal((4, 3)).astype(np.float32))).sum().backward()
         for p_ in lin.parameters():
             p_.data = p_.data.astype(dt)
         opt = [ns.optim.SGD(lin.parameters(), lr=0.1, momentum=0.5), ns.optim.Adam(lin.parameters(), lr=0.01),
